@@ -981,7 +981,7 @@ def lang_table(ctx, rule):
         def filt(pattern, found):
             seen.append(found)
             return True
-        me = matcher_obj(is_xml=False, is_html=True, root=html, cached_meta_lang=[], has_html_namespace=False)
+        me = matcher_obj(is_xml=False, is_html=True, root=html, cached_meta_lang=fresh_memo(ctx, 'cached_meta_lang'), has_html_namespace=False)
         stubs = {'css_match.CSSMatch.extended_language_filter': filt, 'css_match.CSSMatch.supports_namespaces': lambda: False,
                  'util.lower': strict_lower}
         langs = (Obj(_name='SelectorLang', languages=('xx',), __iter__=['xx'], __len__=1),)
@@ -1392,7 +1392,7 @@ def lang_logic_table(ctx, rule):
     bad = None
     for groups, exp in cases:
         html, el = _lang_tree([], el_lang='xx')
-        me = matcher_obj(is_xml=False, is_html=True, root=html, cached_meta_lang=[], has_html_namespace=False)
+        me = matcher_obj(is_xml=False, is_html=True, root=html, cached_meta_lang=fresh_memo(ctx, 'cached_meta_lang'), has_html_namespace=False)
         stubs = {'css_match.CSSMatch.extended_language_filter': lambda pattern, found: pattern.startswith('Y'),
                  'css_match.CSSMatch.supports_namespaces': lambda: False, 'util.lower': strict_lower}
         langs = tuple(Obj(_name='SelectorLang', languages=tuple(g), __iter__=list(g), __len__=len(g)) for g in groups)
@@ -1449,11 +1449,11 @@ def lang_memo_table(ctx, rule):
         a = doc(lang_a)
         b = doc(lang_b)
         for order in ((a[1], a[2], b[1], b[2], a[1]), (b[1], a[1], b[2], a[2]), (a[1], b[1], a[2])):
-            me = matcher_obj(is_xml=False, is_html=True, root=a[0], cached_meta_lang=[], has_html_namespace=False)
+            me = matcher_obj(is_xml=False, is_html=True, root=a[0], cached_meta_lang=fresh_memo(ctx, 'cached_meta_lang'), has_html_namespace=False)
             got, exp = [], []
             for el in order:
                 got.append(found(me, el))
-                fresh = matcher_obj(is_xml=False, is_html=True, root=a[0], cached_meta_lang=[], has_html_namespace=False)
+                fresh = matcher_obj(is_xml=False, is_html=True, root=a[0], cached_meta_lang=fresh_memo(ctx, 'cached_meta_lang'), has_html_namespace=False)
                 exp.append(found(fresh, el))
             names = ['A' if e in a else 'B' for e in order]
             rule.instance({'documents': {'A': lang_a, 'B': lang_b}, 'elements_visited': names, 'languages_found': got,
@@ -2834,3 +2834,54 @@ def util_lower_table(ctx, rule):
         rule.violation('util.lower ascii fold', umod.where(lower_fn),
                        f'util.lower({bad[0]!r}) = {bad[1]!r}, expected {bad[2]!r}: ASCII case folding must map exactly A-Z to a-z and leave every '
                        f'other character alone (names that differ in a non-ASCII letter are different names)')
+
+
+def memo_container_problem(ctx, mmod, name, init_value):
+    """A per-matcher memo is a list (scanned by identity) or a dict / set whose keys are never tags: bs4 tags hash and compare by
+    markup, so a table keyed by a tag merges look-alike elements; keys built from id(...) (ints), strings or tuples of those are
+    fine.  Returns None or a description of the offending key."""
+    if isinstance(init_value, ast.List):
+        return None
+    tf = ctx.types
+    base = name.split('.', 1)[1] if name.startswith('self.') else name
+
+    def is_memo(e):
+        return isinstance(e, ast.Attribute) and e.attr == base and isinstance(e.value, ast.Name)
+    keys = []
+    for q, fn in mmod.functions.items():
+        for n in ast.walk(fn):
+            if isinstance(n, ast.Subscript) and is_memo(n.value):
+                keys.append((q, n.slice))
+            elif isinstance(n, ast.Call) and isinstance(n.func, ast.Attribute) and is_memo(n.func.value) and n.func.attr in ('get', 'setdefault', 'pop', 'add', 'discard', '__contains__') and n.args:
+                keys.append((q, n.args[0]))
+            elif isinstance(n, ast.Compare) and len(n.ops) == 1 and isinstance(n.ops[0], (ast.In, ast.NotIn)) and is_memo(n.comparators[0]):
+                keys.append((q, n.left))
+    for q, k in keys:
+        parts = k.elts if isinstance(k, ast.Tuple) else [k]
+        for part in parts:
+            t = tf.type_of(mmod.name, part)
+            if t is not None and tf.is_bs4(t):
+                return f'{q} uses `{unparse(k)}` (a tag, by inferred type {tf.show(t)}) as key of {name}'
+            if t is not None and any(x == 'tuple' for x in tf.instance_names(t)) and 'Tag' in tf.show(t):
+                return f'{q} uses `{unparse(k)}` (type {tf.show(t)}) as key of {name}'
+    return None
+
+
+def fresh_memo(ctx, name, default=None):
+    """The value CSSMatch.__init__ gives the per-matcher memo self.<name> (an empty list, dict or set), built afresh."""
+    try:
+        _, init = ctx.src.func('css_match.CSSMatch.__init__')
+    except Exception:
+        return [] if default is None else default
+    for st in ast.walk(init):
+        if isinstance(st, (ast.Assign, ast.AnnAssign)):
+            tg = st.targets[0] if isinstance(st, ast.Assign) else st.target
+            if isinstance(tg, ast.Attribute) and tg.attr == name and isinstance(tg.value, ast.Name) and tg.value.id == 'self' and st.value is not None:
+                v = st.value
+                if isinstance(v, ast.Call) and isinstance(v.func, ast.Name) and v.func.id in ('dict', 'list', 'set') and not v.args and not v.keywords:
+                    return {'dict': dict, 'list': list, 'set': set}[v.func.id]()
+                try:
+                    return ast.literal_eval(v)
+                except (ValueError, SyntaxError):
+                    break
+    return [] if default is None else default
